@@ -165,13 +165,9 @@ structure EsState where
   lowerUnknown : Bool := false
   deriving Repr
 
-/-- one iteration of the loop of `examineGRPCEndStream` on line `i` of `n` -/
-def esStep (n : Nat) (st : EsState) (i : Nat) (line : Bytes) : EsState :=
-  let isLast := i + 1 == n
-  if isLast && line.isEmpty then { st with endsInCRLF := true } else
-  let hasCR := line.getLast? == some 13
-  let st := if !isLast && !hasCR then { st with linesWithoutCR := st.linesWithoutCR + 1 } else st
-  let line := if !isLast && hasCR then line.dropLast else line
+/-- the part of one loop iteration after the line-ending accounting: `line` is the trailer
+line without its CR -/
+def esLine (n : Nat) (st : EsState) (i : Nat) (line : Bytes) : EsState :=
   if line.isEmpty then
     { st with blankLines := st.blankLines + 1,
               blankLineAtEnd := st.blankLineAtEnd || (i + 2 == n) }
@@ -196,6 +192,15 @@ def esStep (n : Nat) (st : EsState) (i : Nat) (line : Bytes) : EsState :=
       ++ (if !validFieldValue val then [.invalidValue] else [])
     { st with fb := st.fb ++ fb, trailers := happend st.trailers ck val, prevKey := ck,
               lowerUnknown := st.lowerUnknown || !isASCII key }
+
+/-- one iteration of the loop of `examineGRPCEndStream` on line `i` of `n` -/
+def esStep (n : Nat) (st : EsState) (i : Nat) (line : Bytes) : EsState :=
+  let isLast := i + 1 == n
+  if isLast && line.isEmpty then { st with endsInCRLF := true } else
+  let hasCR := line.getLast? == some 13
+  let st := if !isLast && !hasCR then { st with linesWithoutCR := st.linesWithoutCR + 1 } else st
+  let line := if !isLast && hasCR then line.dropLast else line
+  esLine n st i line
 
 def esLoop (n : Nat) : EsState → Nat → List Bytes → EsState
   | st, _, [] => st
